@@ -61,20 +61,20 @@ def native_jacobians(n, c, k, m, seed=0):
     return problems, sc
 
 
-def nice(ob):
+def nice(ob, fallback):
     n, c, k, m = z3.Int("n_state"), z3.Int("n_calibration"), z3.Int("n_control"), z3.Int("n_readings")
     for bound in (3, 5):
-        r = smt.prove(ob.hyps + [n <= bound, c <= bound, k <= bound, m <= bound, n >= 1], ob.goal, timeout_ms=5000)
+        r = smt.prove(ob.hyps + [n <= bound, c <= bound, k <= bound, m <= bound, n >= 1], ob.goal, timeout_ms=4000)
         if r.status == "sat" and r.model is not None:
             return r.model
-    return ob.result.model
+        if getattr(r, "candidate_model", None) is not None:
+            return r.candidate_model
+    return fallback
 
 
 def triage(run, rep):
-    for ob in rep.obligations:
-        if ob.result.status != "sat":
-            continue
-        model = nice(ob)
+    for ob, model0, definitive in driver.refuted(run, rep):
+        model = nice(ob, model0)
         v = driver.model_values(model, ["n_state", "n_calibration", "n_control", "n_readings", "r_any", "s_any"])
         shape = [int(v.get(x) or 0) for x in ("n_state", "n_calibration", "n_control", "n_readings")]
         shape[3] = max(shape[3], 1)
@@ -90,6 +90,21 @@ def triage(run, rep):
                 confirmed = True
                 what = f"model with n={shape[0]} states, c={shape[1]} calibrations, k={shape[2]} controls, m={shape[3]} readings: {problems[0]}"
         which = rep.key.rsplit(".", 1)[-1]
+        if not confirmed:
+            # a second chance on standard generic shapes before giving up on a native reproduction
+            for shp in ((3, 1, 2, 2), (2, 2, 1, 3)):
+                run.native_runs += 1
+                problems, sc = native_jacobians(*shp, seed=run.seed)
+                if problems:
+                    confirmed = True
+                    payload["inputs"] = {"shape": list(shp), "seed": run.seed}
+                    payload["model_definition"] = sc.describe()
+                    payload["oracle_verdict"] = problems[:6]
+                    what = f"model with n,c,k,m={shp}: {problems[0]}"
+                    break
+        if not confirmed and not definitive:
+            run.undecided.append(ob.name + " (candidate counter-model of the quantifier-free part did not replay)")
+            continue
         run.findings.append(Finding(ob.name, which, what, payload, confirmed, theory=ob.theory))
 
 
